@@ -776,7 +776,18 @@ public:
 			ValueArrayParams& valueArrayParams = mValueCrew.GetValueArrayParams();
 			mHashMap.Reserve(hashMultiMap.mHashMap.GetCount());
 			for (typename HashMap::ConstIterator::Reference ref : hashMultiMap.mHashMap)
-				mHashMap.Insert(ref.key, ValueArray(valueArrayParams, ref.value));
+			{
+				ValueArray valueArray(valueArrayParams, ref.value);
+				try
+				{
+					mHashMap.Insert(ref.key, std::move(valueArray));
+				}
+				catch (...)
+				{
+					valueArray.Clear(valueArrayParams);
+					throw;
+				}
+			}
 		}
 		catch (...)
 		{
